@@ -483,7 +483,7 @@ def run_job(job):
 def make_jobs(tier, seed):
     rng = random.Random(150000 + seed)
     jobs = []
-    kinds = ['walk', 'trend', 'constant', 'monotone', 'alternating', 'huge', 'tiny', 'tiny', 'flat', 'spikes', 'gappy', 'lattice', 'zerovol', 'outside']
+    kinds = ['walk', 'trend', 'constant', 'monotone', 'alternating', 'huge', 'tiny', 'tiny', 'flat', 'spikes', 'gappy', 'lattice', 'zerovol', 'outside', 'volspike']
     plan = {'window': (96, 24), 'recursive': (32, 6), 'ma': (24, 16), 'homogeneity': (24, 16)} if tier == 'quick' else \
         {'window': (3600, 60), 'recursive': (1440, 12), 'ma': (900, 40), 'homogeneity': (900, 40)}
     for group, (njobs, n) in plan.items():
